@@ -93,8 +93,10 @@ CATALOGUE = [
     ('stray-elseif', ['ELSEIF 1 THEN'], ['compile:ELSE_WITHOUT_IF', S], 'inj', 'mp'),
     ('stray-else-in-loop', ['FOR zi% = 1 TO 2', 'ELSE', 'NEXT'], ['compile:ELSE_WITHOUT_IF', S], 'inj', 'mpb'),
     ('second-else', ['IF 1 THEN', 'ELSE', 'ELSE', 'END IF'], ['compile:ELSE_WITHOUT_IF', S], 'inj', 'mpb'),
-    ('stray-case', ['CASE 1'], ['compile:*', S], 'inj', 'mpb'),
-    ('stray-case-else', ['CASE ELSE'], ['compile:*', S], 'inj', 'mpb'),
+    # (not inside blocks: a site inside a SELECT body would make the CASE legitimate)
+    ('stray-case', ['CASE 1'], ['compile:*', S], 'inj', 'mp'),
+    ('stray-case-else', ['CASE ELSE'], ['compile:*', S], 'inj', 'mp'),
+    ('stray-case-in-loop', ['FOR zi% = 1 TO 2', 'CASE 1', 'NEXT'], ['compile:*', S], 'inj', 'mpb'),
     ('stray-end-if', ['END IF'], [S], 'block', 'mp'),
     ('stray-next', ['NEXT'], [S], 'block', 'mp'),
     ('stray-loop', ['LOOP'], [S], 'block', 'mp'),
